@@ -147,9 +147,12 @@ extern "C" void h_div_round()
 #ifdef DC
 extern "C" void h_evalfee()
 {
-    const int64_t fee = nondet_i64();
 #if FEE_CLASS == 0
-    VASSUME(fee >= 0 && fee < 0x200000000LL);
+    const int64_t fee = (int64_t)(nondet_u64() & 0x1ffffffffULL);   // exactly [0, 2^33); by masking so that the other class's code is not part of the query
+#else
+    const int64_t fee = nondet_i64();
+#endif
+#if FEE_CLASS == 0
 #elif FEE_CLASS == 1
     VASSUME(fee >= 0x200000000LL);
 #else
